@@ -1,23 +1,23 @@
 CONSTANTS
   MaxHeight = 2
   MaxCrashes = 1
-  PlanId = 1
+  PlanId = 4
   EmitSched = FALSE
   MaxAppRollback = 0
   MaxTamper = 0
-  InitialHeight = 1
+  InitialHeight = 5
   Weak_EndHeightBeforeSaveBlock = FALSE
   Weak_SaveStateBeforeAppCommit = FALSE
   Weak_NoABCIResponsesSaved = FALSE
   Weak_HandshakeReplaysCommitted = FALSE
   Weak_InitChainAlways = FALSE
   Weak_CommitWithoutMempoolLock = FALSE
-  Weak_NoFlushBeforeCommit = TRUE
+  Weak_NoFlushBeforeCommit = FALSE
   Weak_NoEndHeightRepair = FALSE
   Weak_HandshakeAcceptsAppAhead = FALSE
   Weak_EmptyStoreAcceptsAppAhead = FALSE
-  Weak_NoInitialHeightBase = FALSE
+  Weak_NoInitialHeightBase = TRUE
 INIT Init
 NEXT Next
-INVARIANTS MempoolBracket
+INVARIANTS NoStuck
 CHECK_DEADLOCK FALSE
